@@ -550,6 +550,12 @@ def run(ctx, host=None):
     nf = option_forwarding(ctx, chk, R6, ['open_streams'])
     chk.require(nf >= 1, f'expected >= 1 forwarding site of open_streams, found {nf}')
 
+    # rules of other properties that are necessary conditions of this one too: "peak memory does not grow with object size" for reads of compressed objects rests on the
+    # decompresser's buffer discipline and bounded seek reads (C07.R5/R8)
+    if host is None:
+        from ..report import host_modules
+        host_modules(chk, ctx, ['C07'])
+
     return chk.finish(
         explanation=('Static resource rules: a leak typestate per function over every descriptor-producing call (open, os.open, sqlite3.connect, tempfile) with hand-over '
                      '(return / yield / owner attribute) and owner-closes checks; Container.close closes and disposes both sessions; a one-open-file typestate on the bulk '
